@@ -278,7 +278,7 @@ class C01(Prop):
             for r in range(reps):
                 # (thorough tier: one of the four repetitions of a shape also goes through a second-use variant)
                 gens.append({"kind": "tree", "tree": ln["tree"], "seed": rnd.getrandbits(30), "salt": n * reps + r,
-                             "variants": tier == "quick" or r == 0,
+                             "variants": tier == "quick" or r == 0, "vsel": (n + r) % 4,
                              "indent": rnd.choice([0, 0, 1, 3]), "eol": rnd.choice(["\n", "\n", "", "\r\n", " ", "\t"])})
         return gens
 
@@ -307,7 +307,8 @@ class C01(Prop):
             recs = [{"tree": described, "events": tokenize(out), "gen": g}]
             if not g.get("variants", True):
                 return recs
-            if g["salt"] % 4 == 0 and isinstance(obj, H.Tag) and described["attrs"]:
+            vsel = g.get("vsel", g["salt"] % 4)
+            if vsel == 0 and isinstance(obj, H.Tag) and described["attrs"]:
                 # the SAME object rendered again after one of its attributes went away (item deletion / pop / the
                 # class helper): the markup follows the tree as it is now
                 import copy as _copy
@@ -327,7 +328,7 @@ class C01(Prop):
                 out2 = obj.get_html_string(g["indent"], g["eol"])
                 recs.append({"tree": d2, "events": tokenize(out2), "gen": dict(g, second=True)})
             txt = lambda s: {"k": "text", "name": "", "attrs": [], "c": [], "t": cps(s)}
-            if g["salt"] % 4 == 1 and isinstance(obj, H.Tag) and obj.name not in ("script", "style") and not (
+            if vsel == 1 and isinstance(obj, H.Tag) and obj.name not in ("script", "style") and not (
                     obj.name in gamma.VOID_NAMES and not described["c"]):
                 # a rendering that FAILED (an un-expanded object among the children), the tree repaired in place, the same
                 # objects rendered again: an ordinary tree, whatever happened before
@@ -340,7 +341,7 @@ class C01(Prop):
                 obj.children.pop()
                 if failed:
                     recs.append({"tree": described, "events": tokenize(obj.get_html_string(g["indent"], g["eol"])), "gen": dict(g, second="repaired")})
-            elif g["salt"] % 4 == 2 and isinstance(obj, H.Tag):
+            elif vsel == 2 and isinstance(obj, H.Tag):
                 # an element built from a lone TagList does not become an alias of that list
                 lst = H.TagList(obj, "kept <&>")
                 w = H.Tag("section", lst, {"id": "w"})
@@ -351,7 +352,7 @@ class C01(Prop):
                 dw = {"k": "tag", "name": "section", "attrs": [{"n": "id", "v": cps("w")}],
                       "c": [described, txt("kept <&>"), txt("own <text>")], "t": []}
                 recs.append({"tree": dw, "events": tokenize(w.get_html_string(g["indent"], g["eol"])), "gen": dict(g, second="lent")})
-            elif g["salt"] % 4 == 3 and isinstance(obj, H.Tag) and obj.name not in ("script", "style"):
+            elif vsel == 3 and isinstance(obj, H.Tag) and obj.name not in ("script", "style"):
                 import copy as _copy
                 d3 = _copy.deepcopy(described)
                 str(obj)
